@@ -59,6 +59,19 @@ THEOREMS = [
     "Qentem.Value.keysNodup_slotUpd",
     "Qentem.Value.keysNodup_slotRemove",
     "Qentem.Value.keysNodup_liveSlots",
+    "Qentem.Value.WF_updKey",
+    "Qentem.Value.WF_updIdx",
+    "Qentem.Value.WF_updPath",
+    "Qentem.Value.WF_pushDoc",
+    "Qentem.Value.WF_addValue",
+    "Qentem.Value.WF_addObj",
+    "Qentem.Value.WF_addArr",
+    "Qentem.Value.WF_mergeInto",
+    "Qentem.Value.WF_removeKey",
+    "Qentem.Value.WF_removeIdx",
+    "Qentem.Value.WF_resetPayload",
+    "Qentem.Value.WF_copyDoc",
+    "Qentem.Value.WF_compress",
 ]
 
 
@@ -275,7 +288,9 @@ def gen_lines(ctx):
 
 
 def run(ctx):
-    ctx.prove(["Qentem.Props.C12"], THEOREMS)
+    ctx.prove(["Qentem.Props.C12", "Qentem.Proofs.ValueWF"], THEOREMS,
+              open_statements=["step preserves WF for every Op (proved per value operation: WF_updPath, WF_addValue, WF_mergeInto, WF_copyDoc, WF_compress, ...; not yet assembled over getAt/modAt/groupByA/assignType)",
+                               "refAt (updPath p f d) p = f (...) for nested targets of move/copy (proved root-to-root; nested case checked by the law oracle)"])
     drv = ctx.build_driver()
     exe = ctx.build_harness("value_harness.cpp")
     if not (drv and exe):
